@@ -280,6 +280,19 @@ def IndexOf(a: T, sub: T, start: T) -> T:
     return app(INT, "str.indexof", a, sub, start)
 
 
+def ReplaceAll(a: T, old: T, new: T) -> T:
+    if a.is_lit and old.is_lit and new.is_lit and litval(old) != "":
+        return mk_str(litval(a).replace(litval(old), litval(new)))
+    return app(STR, "str.replace_all", a, old, new)
+
+
+def ToLower(a: T) -> T:
+    """ASCII lower-casing (cvc5 extension str.to_lower; z3 has no counterpart)."""
+    if a.is_lit:
+        return mk_str("".join(chr(ord(c) + 32) if "A" <= c <= "Z" else c for c in litval(a)))
+    return app(STR, "str.to_lower", a)
+
+
 def At(a: T, i: T) -> T:
     return Substr(a, i, mk_int(1))
 
